@@ -893,6 +893,17 @@ def _regex_test(kind):
     return h
 
 
+def _re_module_test(kind):
+    """re.match / re.fullmatch / re.search(pattern, string) with a literal pattern."""
+    def h(ex, st, args, kwargs):
+        if is_sym(args[0]):
+            raise U(f"re.{kind} with a symbolic pattern")
+        rx = RegexVal(args[0], args[2] if len(args) > 2 else kwargs.get("flags", 0))
+        yield from _regex_test(kind)(ex, st, rx, [args[1]], {})
+
+    return h
+
+
 def _operator(op):
     def h(ex, st, args, kwargs):
         a, b = args
@@ -973,6 +984,25 @@ def _isfinite(ex, st, args, kwargs):
         yield st, True  # symbolic floats are modelled as (finite) reals
 
 
+def _math_pred(name):
+    """math.isinf / math.isnan: concrete on concrete floats, False on symbolic reals (modelled finite), an uninterpreted
+    predicate of an abstract value."""
+    def h(ex, st, args, kwargs):
+        from .contracts import pure_result
+
+        (v,) = args
+        if not is_sym(v) and not isinstance(v, Opaque):
+            import math
+
+            yield st, getattr(math, name)(v)
+        elif isinstance(v, Opaque):
+            yield st, pure_result(ex, st, "math." + name, "bool", [v])
+        else:
+            yield st, False
+
+    return h
+
+
 def _dc_replace(ex, st, args, kwargs):
     """dataclasses.replace(obj, **changes) on an abstract object: a new object of the same kind that is a function of
     the original and of exactly the overridden fields (their names are part of the function's name)."""
@@ -1016,7 +1046,7 @@ def _object(ex, st, args, kwargs):
 
 
 FUNCS = {
-    "math.isfinite": _isfinite, "object": _object,
+    "math.isfinite": _isfinite, "math.isinf": _math_pred("isinf"), "math.isnan": _math_pred("isnan"), "object": _object,
     "copy.deepcopy": _deepcopy, "copy.copy": _deepcopy,
     "dataclasses.fields": _dc_fields, "dataclasses.replace": _dc_replace,
     "typing.get_origin": _get_origin, "typing.get_args": _get_args,
@@ -1029,6 +1059,7 @@ FUNCS = {
     "zip": _zip, "frozenset": _set, "map": _map, "filter": _filter, "getattr": _getattr, "hasattr": _hasattr, "range": _range,
     "sys.intern": _intern, "typing.cast": _cast, "issubclass": _issubclass, "repr": _repr, "sum": _sum,
     "float": _float, "sorted": _sorted, "print": _noop, "re.compile": _re_compile,
+    "re.match": _re_module_test("match"), "re.fullmatch": _re_module_test("fullmatch"), "re.search": _re_module_test("search"),
     "warnings.warn": _traced("warnings.warn"),
 }
 
@@ -1623,6 +1654,12 @@ def construct(ex, st, cref: ClassRef, args, kwargs):
         is_exc = any(n in ("Exception", "ValueError", "Warning", "BaseException", "TypeError") or False for n in names)
     except Exception:
         is_exc = False
+    if not is_exc:
+        try:
+            # exception classes whose base lives outside the repository (click.ClickException): the declared hierarchy
+            is_exc = bm.is_exc_subclass(cref.qualname.split(".")[-1], "Exception") and cref.qualname.split(".")[-1] != "Exception"
+        except Exception:
+            is_exc = False
     if is_exc:
         yield st, ExcVal(cref.qualname, args)
         return
